@@ -467,6 +467,10 @@ func (vc *VC) lvalue(fr *frame, st *State, lhs ast.Expr, define bool) func(Val) 
 			vc.oblige(st, "safety", "index", l.Pos(), And(Le(IntLit(0), i), Lt(i, IntLit(u.Len()))), "array index out of range")
 			return func(v Val) {
 				cur := vc.term(vc.evalExpr(fr, st, l.X))
+				if cur.Sort == SBox {
+					vc.storeElemPath(st, vc.elemKey(u.Elem()), u.Elem(), Term{cur.S, SInt}, i, v, l.Pos())
+					return
+				}
 				vc.assignTo(fr, st, l.X, Store(cur, i, vc.term(v)))
 			}
 		case *types.Map:
@@ -858,6 +862,7 @@ func (vc *VC) execLoop(fr *frame, st *State, ld *loopDesc) *State {
 		vc.linkHeaps(k, nh, oldH)
 		vc.loopFrameFacts(head, entry, k, oldH, nh, spec, fr)
 		vc.heapInvariant(nh, head.alloc, head.pc)
+		vc.heapRange(k, nh, head.pc)
 	}
 	// fix typeFacts alloc placeholder
 	vc.patchAllocPlaceholder(head.alloc)
